@@ -70,11 +70,12 @@ def handleC12 (inp obs : List String) : Verdict :=
       (if cols.length < bedCols ty then ["prefix-of-valid-line"] else []) ++
       (if line.length > 64 && line.any (· ≥ 128) then ["long-non-ascii-line"] else []) ++
       (match robs with | "rd" :: _ => ["through-reader"] | _ => [])
-    -- the line as the only line of a Reader: exactly one item, Ok iff the line must be accepted, never a panic
+    -- the line between two well-formed lines of a Reader: three items, the middle one Ok iff the line must be
+    -- accepted (a blank line is rejected, not taken for the end of input), never a panic
     let readerBad : Option String := match robs with
       | "rd" :: a :: b :: _ =>
         let want := if expect == .accept then "ok" else "err"
-        if a != want || b != want then some s!"Reader::records -> {a}, into_records -> {b}; required: one item, {want}" else none
+        if a != want || b != want then some s!"between two well-formed lines: Reader::records -> {a}, into_records -> {b}; required: three items, the middle one {want}" else none
       | _ => none
     if let some d := readerBad then
       { kind := "specfail", nontrivial, classes, detail := s!"line {hexEncode line} as {repr ty}: {d}" } else
@@ -210,7 +211,10 @@ def handleC04 (inp obs : List String) : Verdict :=
     let frags ← many nat
     let ptab ← pPTab
     pure (ty, pfx, lines, frags, ptab)).run inp
-  let pobs := (do let a ← pROuts; let b ← pROuts; let c ← pROuts; let d ← pROuts; let e ← pROuts; pure [a, b, c, d, e]).run obs
+  -- five ways of reading, plus (newer harness) two mixed ones: k items through records() then into_records() on
+  -- the same reader; one line through read_record then records()
+  let pobs := (do let a ← pROuts; let b ← pROuts; let c ← pROuts; let d ← pROuts; let e ← pROuts
+                  let f ← opt' pROuts; let g ← opt' pROuts; pure ([a, b, c, d, e] ++ f.toList ++ g.toList)).run obs
   match parsed, pobs with
   | some ((ty, pfx, lines, frags, ptab), _), some (os, _) =>
     let fc := mkCodec ptab []
@@ -247,7 +251,7 @@ def handleC04 (inp obs : List String) : Verdict :=
     if !consOk then
       { kind := "specfail", nontrivial, classes, detail := s!"{first.length} items for {expectByConstruction.length} non-skipped lines, or an item differs from the written record / expected error; stream {hexEncode input}" }
     else if !agree then
-      { kind := "specfail", nontrivial, classes, detail := s!"records(), into_records(), fragmented reads or read_record disagree: item counts {outs.map List.length}; stream {hexEncode input} fragments {frags}" }
+      { kind := "specfail", nontrivial, classes, detail := s!"records(), into_records(), fragmented reads, read_record or the mixed uses of one reader disagree: item counts {outs.map List.length}; stream {hexEncode input} fragments {frags}" }
     else
       let model := (readAll (parseT fc ty) pfx input).map toROut
       let spec := (specItems (parseT fc ty) pfx input).map toROut
